@@ -2,7 +2,8 @@
    Statements only; proofs live in Proofs/EditProofs*.v.  The model is Model/Edit.v:
    [step O d op] is one public editing call, [run_ops O d ops] a whole program. *)
 From LV Require Import Base.Bytes Model.Obj Model.DocQ Model.PageTree Model.Traverse Model.Edit
-  Spec.RenumberSpec Proofs.EditProofs Proofs.EditProofsEx.
+  Spec.RenumberSpec Spec.AbstractDoc Proofs.EditProofs Proofs.EditProofsEx Proofs.EditProofsTrav
+  Proofs.EditProofsDelete Proofs.EditProofsKF.
 
 (* ------------------------------------------------------------------------------------------ *)
 (* Allocation.  [alloc_ok d]: max_id is at least every object number in use.  [doc_wf d]: the
@@ -66,6 +67,76 @@ Theorem C11_frame_set :
 Proof. exact frame_set. Qed.
 
 (* ------------------------------------------------------------------------------------------ *)
+(* Deletion (the code after the four repairs recorded in known_findings.json: every array occurrence,
+   stream dictionaries, the trailer's own entries, an indirect object that is itself the reference).
+   After delete_object(id) no reference to id is left in the trailer or in any object that a traversal from
+   the trailer reaches -- on every document, cyclic and dangling ones included. *)
+Theorem C11_delete_no_reference_left :
+  forall d id d' r, doc_wf d -> delete_object d id = Some (d', r) ->
+    ~ In id (refs_of_dict (d_trailer d')) /\
+    forall x o, reach (d_trailer d') (d_objects d') x -> lookup (d_objects d') x = Some o -> ~ In id (refs_of o).
+Proof. exact delete_object_no_ref. Qed.
+
+(* its frame: it always terminates; the object goes away and is returned; the objects reachable (in the graph
+   without the references to id) lose exactly those references -- [strip id] is the code's action, which
+   Proofs/EditProofsDelete.v shows free of references to id --; every other object, and the cursor, are unchanged *)
+Theorem C11_delete_frame :
+  forall d id, doc_wf d ->
+  exists d' r,
+    delete_object d id = Some (d', r) /\
+    d_trailer d' = del_trailer d id /\ d_max_id d' = d_max_id d /\
+    lookup (d_objects d') id = None /\
+    (forall x, x <> id -> reach (del_trailer d id) (del_graph d id) x ->
+               lookup (d_objects d') x = option_map (strip id) (lookup (d_objects d) x)) /\
+    (forall x, x <> id -> ~ reach (del_trailer d id) (del_graph d id) x ->
+               lookup (d_objects d') x = lookup (d_objects d) x) /\
+    (r = lookup (d_objects d) id \/ r = option_map (strip id) (lookup (d_objects d) id)).
+Proof. exact delete_object_spec. Qed.
+
+Theorem C11_strip_no_reference : forall id o, ~ In id (refs_of (strip id o)).
+Proof. exact strip_no_ref. Qed.
+
+(* ------------------------------------------------------------------------------------------ *)
+(* Open known findings (known_findings.json): the clauses "each page's decoded content is what the content
+   edits imply" and "adding a resource never takes away a resource" FAIL on the classes below.  Each class is
+   a boolean predicate on the document before the call (mirrored by the harness), each witness is computed on
+   the faithful model and replayed on the crate by ./check.  Content and resources are those of the abstract
+   document of Spec/AbstractDoc.v (ISO 32000 semantics: nearest inherited Resources; Contents a stream or an
+   array of streams behind any references). *)
+Theorem C11_resources_shadow_refuted :
+  KnownClass_resources_shadow ex_doc (3, 0)%N = true /\
+  exists d', step O0 ex_doc (AddXObject (3, 0)%N K_Im1 (5, 0)%N) = (d', OOk) /\
+             effective_resources (d_objects ex_doc) (3, 0)%N = Some [(K_Font, K_F1, ORef 6 0)] /\
+             effective_resources (d_objects d') (3, 0)%N = Some [(K_XObject, K_Im1, ORef 5 0)] /\
+             ~ res_le (effective_resources (d_objects ex_doc) (3, 0)%N) (effective_resources (d_objects d') (3, 0)%N).
+Proof. exact resources_shadow_witness. Qed.
+
+Theorem C11_content_shared_refuted :
+  KnownClass_content_shared ex_doc (3, 0)%N = true /\
+  exists d', step O0 ex_doc (ChangePageContent (3, 0)%N (bs "BT ET")) = (d', OOk) /\
+             page_content decode0 (d_objects ex_doc) (4, 0)%N = Some (bs "q Q") /\
+             page_content decode0 (d_objects d') (4, 0)%N = Some (bs "BT ET").
+Proof. exact content_shared_witness. Qed.
+
+Theorem C11_content_indirect_refuted :
+  KnownClass_content_indirect ex_doc_ind (3, 0)%N = true /\
+  exists d', step O0 ex_doc_ind (AddPageContents (3, 0)%N (bs "BT ET")) = (d', OOk) /\
+             page_content decode0 (d_objects ex_doc_ind) (3, 0)%N = Some (bs "q Q") /\
+             get_page_content O0 (d_objects ex_doc_ind) (3, 0)%N = Some (bs "q Q") /\
+             page_content decode0 (d_objects d') (3, 0)%N = None /\
+             get_page_content O0 (d_objects d') (3, 0)%N = Some (bs "BT ET").
+Proof. exact content_indirect_witness. Qed.
+
+(* outside the class the same call does what the abstract page says (concrete instance; the general statement
+   is tied by correspondence and by the harness verdict after every step, not yet proved) *)
+Theorem C11_content_example_partial :
+  KnownClass_content_indirect ex_doc (3, 0)%N = false /\
+  exists d', step O0 ex_doc (AddPageContents (3, 0)%N (bs "BT ET")) = (d', OOk) /\
+             page_content decode0 (d_objects d') (3, 0)%N = Some (bs "q Q" ++ bs "BT ET") /\
+             page_content decode0 (d_objects d') (4, 0)%N = Some (bs "q Q").
+Proof. exact content_ok_example. Qed.
+
+(* ------------------------------------------------------------------------------------------ *)
 (* non-vacuity: a concrete document with a page tree and a program mixing allocation, replacement,
    deletion and pruning meets the hypotheses; three ids are handed out, all different *)
 Theorem C11_example :
@@ -86,4 +157,11 @@ Print Assumptions C11_prune_total.
 Print Assumptions C11_frame_new.
 Print Assumptions C11_frame_add.
 Print Assumptions C11_frame_set.
+Print Assumptions C11_delete_no_reference_left.
+Print Assumptions C11_delete_frame.
+Print Assumptions C11_strip_no_reference.
+Print Assumptions C11_resources_shadow_refuted.
+Print Assumptions C11_content_shared_refuted.
+Print Assumptions C11_content_indirect_refuted.
+Print Assumptions C11_content_example_partial.
 Print Assumptions C11_example.
